@@ -1,7 +1,9 @@
 #!/usr/bin/env python3
-"""tools/seedmatrix.py [--tier quick|thorough] [--props C01,C02] <seeded-id>...
-Applies each seeded patch to /repo, runs the given checks (default: target property + companions), reverts,
-and stores the outcome in seeded/<id>/results.json. Never run two instances at once (they share /repo)."""
+"""tools/seedmatrix.py [--tier quick|thorough] [--props C01,C02] [--repo DIR] <seeded-id>...
+Applies each seeded patch to the repository (default /repo; with --repo DIR a scratch git worktree of /repo's HEAD
+that is created on demand, so that /repo itself stays untouched and other checks can run meanwhile), runs the given
+checks (default: target property + companions) with VERIF_REPO pointing there, reverts, and stores the outcome in
+seeded/<id>/results.json. Never run two instances on the same repository directory."""
 import json, os, subprocess, sys, time
 
 V = os.path.dirname(os.path.dirname(os.path.abspath(__file__)))
@@ -22,31 +24,38 @@ def main():
     args = sys.argv[1:]
     tier = "quick"
     props = None
+    repo = "/repo"
     ids = []
     i = 0
     while i < len(args):
         if args[i] == "--tier":
             tier = args[i + 1]; i += 1
+        elif args[i] == "--repo":
+            repo = args[i + 1]; i += 1
         elif args[i] == "--props":
             props = args[i + 1].split(","); i += 1
         else:
             ids.append(args[i])
         i += 1
+    if repo != "/repo" and not os.path.isdir(repo):
+        subprocess.run(["git", "-C", "/repo", "worktree", "add", "--detach", repo, "HEAD"], check=True, stdout=subprocess.DEVNULL)
+    # evidence of runs against a patched tree must not replace the evidence of the real tree
+    env = dict(os.environ, VERIF_REPO=repo, VERIF_EVIDENCE_DIR=os.environ.get("VERIF_EVIDENCE_DIR", "/tmp/seed-evidence"))
     for sid in ids:
         d = os.path.join(V, "seeded", sid)
         meta = json.load(open(d + "/meta.json"))
         target = meta["target_property"]
         todo = props or companions(target)
-        if subprocess.run(["git", "-C", "/repo", "diff", "--quiet"]).returncode != 0:
-            print("/repo is dirty; abort"); sys.exit(2)
-        if subprocess.run(["git", "-C", "/repo", "apply", d + "/patch.diff"]).returncode != 0:
+        if subprocess.run(["git", "-C", repo, "diff", "--quiet"]).returncode != 0:
+            print(repo + " is dirty; abort"); sys.exit(2)
+        if subprocess.run(["git", "-C", repo, "apply", d + "/patch.diff"]).returncode != 0:
             print(sid, "patch does not apply"); continue
         res_path = d + "/results.json"
         results = json.load(open(res_path)) if os.path.exists(res_path) else {}
         try:
             for p in todo:
                 t0 = time.time()
-                r = subprocess.run([V + "/check", p, "--tier", tier], stdout=subprocess.PIPE, stderr=subprocess.STDOUT, cwd=V)
+                r = subprocess.run([V + "/check", p, "--tier", tier], stdout=subprocess.PIPE, stderr=subprocess.STDOUT, cwd=V, env=env)
                 out = r.stdout.decode(errors="replace")
                 lines = [l for l in out.splitlines() if l.startswith("VIOLATION") or l.startswith("  harness=") or l.startswith("  ") and ":" in l]
                 key = "%s/%s" % (p, tier)
@@ -55,7 +64,7 @@ def main():
                                 "summary": [l for l in out.splitlines() if " tier=" in l][-1:] }
                 print("%s %s rc=%d %.0fs %s" % (sid, key, r.returncode, time.time() - t0, (results[key]["first"] or [""])[0][:160]), flush=True)
         finally:
-            subprocess.run(["git", "-C", "/repo", "checkout", "--", "."])
+            subprocess.run(["git", "-C", repo, "checkout", "--", "."])
         json.dump(results, open(res_path, "w"), indent=1)
 
 
